@@ -4,6 +4,7 @@ import (
 	"encoding/hex"
 	"fmt"
 	"math/big"
+	"os"
 	"sort"
 	"strings"
 
@@ -34,6 +35,10 @@ import (
 // ---------------------------------------------------------------------------------------
 
 const maxDepth = 8
+
+// development aid: judge with the public getters and store dumps only (used to measure what the
+// black-box observers catch on their own when mutating the implementation)
+var noWhiteBox = os.Getenv("VERIF_C03_NO_WHITEBOX") != ""
 
 var keeperKinds = map[string]bool{"BankSend": true, "SetAllowance": true, "Delegate": true, "Undelegate": true, "WithdrawReward": true}
 
@@ -299,6 +304,9 @@ func (w *seqWorld) view(sdb evmvm.CStateDB, pairs map[[2]int]bool) map[string]st
 	v["refund/counter"] = fmt.Sprint(sdb.GetRefund())
 	v["logs/transaction-logs"] = logsString(sdb.GetTransactionLogs())
 	v["supply-via-context/"+vh.Denom] = app.BankKeeper.GetSupply(ctx, vh.Denom).String()
+	if noWhiteBox {
+		return v
+	}
 	// white-box clones of the revertible fields (observation only)
 	var ts []string
 	for a := range sdb.ForTest_CloneTouched() {
